@@ -462,7 +462,7 @@ func (r *recResult) String() string               { return "r" }
 func (r *recResult) MarshalJSON() ([]byte, error) { return []byte("{}"), nil }
 func (r *recResult) ID() string                   { return strconv.Itoa(r.id) }
 
-type recScanner struct {
+type limRecScanner struct {
 	log    *wrapLog
 	gotCtx context.Context
 	gotReq *scan.Request
@@ -470,7 +470,7 @@ type recScanner struct {
 	retErr error
 }
 
-func (s *recScanner) Scan(ctx context.Context, r *scan.Request) (scan.Result, error) {
+func (s *limRecScanner) Scan(ctx context.Context, r *scan.Request) (scan.Result, error) {
 	s.log.add('D')
 	s.gotCtx, s.gotReq = ctx, r
 	return s.retRes, s.retErr
@@ -512,7 +512,7 @@ func runLimWrap(kind, ops string) string {
 				parts = append(parts, fmt.Sprintf("%c:%s:%d", ops[i], log.cut(), b2i(pass)))
 			}
 		case "scan":
-			d := &recScanner{log: log}
+			d := &limRecScanner{log: log}
 			s := scan.NewRateLimitScanner(d, &countingLimiter{log})
 			for i := 0; i < len(ops); i++ {
 				d.retErr, d.retRes = nil, &recResult{i}
